@@ -308,6 +308,15 @@ Definition fn_swarm_dialaddr := mkFn "swarm_dialaddr"
    "ctx.Err"; "s.TransportForDialing"; "s.bhd.RecordResult"; "s.metricsTracer.FailedDialing"; "wrapWithMetrics"].
 
 
+
+(* Swarm.AddListenAddr: the transport listener is the resource (modelled in the
+   raw slot); the accept-loop goroutine takes it over *)
+Definition fn_swarm_addlisten := mkFn "swarm_addlisten"
+  [("tpt.Listen", (AcqRaw, Nop, Impossible));
+   ("list.Close", (RelRaw, RelRaw, RelRaw))]
+  [] [] [] HandOver
+  ["list.Multiaddr"; "s.TransportForListening"; "s.listeners.Lock"; "s.listeners.Unlock"; "s.notifyAll"; "s.refs.Add"].
+
 (* ---- tcpreuse: the shared TCP listener that samples the first bytes ---------- *)
 Definition fn_identify_conn := mkFn "identify_conn"
   [("c.Close", (RelRaw, RelRaw, RelRaw));
